@@ -102,6 +102,18 @@ theorem subDiv_errs {f : Num → Num → Except Err Num} (hf : ∀ a b, ErrsOK (
     | cons y more =>
       exact errsOK_bind (expectNumber_errs y) fun _ => errsOK_bind (hf _ _) fun _ => foldNum_errs hf _ _
 
+/-- `/`: the check for an exact zero divisor among exact operands answers `divZero`, otherwise it is `subDiv` -/
+theorem divArgs_cases (args : List Value) :
+    divArgs args = .error .divZero ∨ divArgs args = subDiv Num.div (.int 1) args := by
+  unfold divArgs
+  simp only
+  split <;> split <;> first | exact .inl rfl | exact .inr rfl
+
+theorem divArgs_errs {args : List Value} (hl : 1 ≤ args.length) : ErrsOK (divArgs args) := by
+  rcases divArgs_cases args with h | h <;> rw [h]
+  · intro e he; cases he; exact siteOK_divZero
+  · exact subDiv_errs div_errs _ hl
+
 theorem extremum_errs (step : Num → Num → Num) {args : List Value} (hl : 1 ≤ args.length) :
     ErrsOK (extremum step args) := by
   unfold extremum
@@ -210,7 +222,7 @@ theorem applyPure_sites {σ : Store} {b : Builtin} {args : List Value}
   case add => exact rsites_lift (foldNum_errs add_errs _ _)
   case mul => exact rsites_lift (foldNum_errs mul_errs _ _)
   case sub => exact rsites_lift (subDiv_errs sub_errs _ har.1)
-  case div => exact rsites_lift (subDiv_errs div_errs _ har.1)
+  case div => exact rsites_lift (divArgs_errs har.1)
   case max => exact rsites_lift (extremum_errs _ har.1)
   case min => exact rsites_lift (extremum_errs _ har.1)
   case numEq => exact rsites_lift (cmpNum_errs _ _)
@@ -499,6 +511,12 @@ theorem subDiv_safe {f : Num → Num → Except Err Num} (hf : Num.SafeOp2 f) {u
           | error e => exact ⟨fun s h => h1 s (by rw [hr]; cases h; rfl), fun r h => (by cases h)⟩
           | ok r0 => exact foldNum_safe hf more r0 (h2 r0 hr) (fun v hv => ha v (by simp [hv]))
 
+theorem divArgs_safe {args : List Value} (ha : SafeAll args) (hl : 1 ≤ args.length) :
+    NoPanicE (divArgs args) ∧ ∀ r, divArgs args = .ok r → r.PosDen := by
+  rcases divArgs_cases args with h | h <;> rw [h]
+  · exact ⟨fun s h => (by cases h), fun r h => (by cases h)⟩
+  · exact subDiv_safe Num.safe_div (unit := .int 1) trivial ha hl
+
 theorem extremum_fold_safe {step : Num → Num → Num} (hs : ∀ a b, a.PosDen → b.PosDen → (step a b).PosDen) :
     ∀ (rest : List Value) (init : Num), init.PosDen → SafeAll rest →
       NoPanicE (rest.foldlM (fun a v => do let b ← expectNumber v; pure (step a b)) init) ∧
@@ -584,7 +602,7 @@ theorem applyPure_rok {σ : Store} {b : Builtin} {args : List Value} (hb : b ≠
   case add => have h := foldNum_safe Num.safe_add args (.int 0) trivial ha; exact rok_lift_num h.1 h.2
   case mul => have h := foldNum_safe Num.safe_mul args (.int 1) trivial ha; exact rok_lift_num h.1 h.2
   case sub => have h := subDiv_safe Num.safe_sub (unit := .int 0) trivial ha har.1; exact rok_lift_num h.1 h.2
-  case div => have h := subDiv_safe Num.safe_div (unit := .int 1) trivial ha har.1; exact rok_lift_num h.1 h.2
+  case div => have h := divArgs_safe ha har.1; exact rok_lift_num h.1 h.2
   case max => exact rok_lift_num (extremum_safe (fun _ _ => Num.posDen_maxStep) ha har.1).1 (extremum_safe (fun _ _ => Num.posDen_maxStep) ha har.1).2
   case min => exact rok_lift_num (extremum_safe (fun _ _ => Num.posDen_minStep) ha har.1).1 (extremum_safe (fun _ _ => Num.posDen_minStep) ha har.1).2
   case numEq => exact rok_lift_bool (cmpNum_np _ _)
